@@ -22,7 +22,8 @@ from ._c19_lib import (
     guarded_ids,
     handle_expr,
     inner_facts,
-    is_kind_selector,
+    denotes_kind_selector,
+    denotes_project_group,
     is_materialisation,
     is_project_group,
     node_exprs,
@@ -88,7 +89,7 @@ def rule_guard(ctx) -> RuleResult:
     )
     p = ctx.p
     n_guard = {"try": 0, "in": 0, "get": 0, "mandatory": 0}
-    for name, fn, by_callers, handles in reader_units(ctx):
+    for name, fn, by_callers, handles, roles in reader_units(ctx):
         tainted = tainted_names(fn, handles)
         if not tainted:
             continue
@@ -128,7 +129,7 @@ def rule_guard(ctx) -> RuleResult:
                     res.inst(f"H5Reader.{name}:{x.lineno} {base}[{key}] dominated by `{key} in {base}`", nontrivial=True)
                     continue
                 known = [f[2] for f in facts if f[0] == "==" and f[1] == key_x]
-                flat = is_kind_selector(xe.slice, fn) and is_project_group(xe.value, roots) and all(k in FLAT_CONTAINERS for k in known)
+                flat = denotes_kind_selector(xe.slice, fn, roles) and denotes_project_group(xe.value, roots, roles) and all(k in FLAT_CONTAINERS for k in known)
                 mandatory = (
                     is_project_group(xe, roots)  # project group
                     or flat  # flat container chosen by kind (not the optional Root link)
@@ -182,7 +183,7 @@ def rule_guard(ctx) -> RuleResult:
                 for c in ast.walk(e):
                     if isinstance(c, ast.Call) and _func_name(c) == "create_entity":
                         return True
-                    if isinstance(c, (ast.Subscript, ast.Starred)) and al.text(strip_view(c.value)) in record:
+                    if isinstance(c, (ast.Subscript, ast.Starred, ast.Attribute)) and al.text(strip_view(c.value)) in record:
                         return True
                 if isinstance(e, ast.Assign) and isinstance(e.targets[0], (ast.Tuple, ast.List)) and isinstance(e.value, ast.Name) and e.value.id in attrs_l:
                     return True
@@ -206,18 +207,25 @@ def rule_scope(ctx) -> RuleResult:
         "items after it",
         floor=3,
     )
-    for name, fn, _, handles in reader_units(ctx):
+    for name, fn, by_callers, handles, _roles in reader_units(ctx):
         tainted = tainted_names(fn, handles)
         if not tainted:
             continue
         al = Alias(fn.node)
         seen_loops = set()
-        for _owner, region in guard_regions(fn.node):
+        regions = guard_regions(fn.node)
+        if by_callers:
+            # a helper that could not be expanded (a generator, ...) and runs only inside its callers' guards: its whole body
+            # is guarded from outside
+            regions = [(fn.node, fn.node.body)] + regions
+        for _owner, region in regions:
             loops = [lp for s in region for lp in ast.walk(s) if isinstance(lp, (ast.For, ast.ListComp, ast.SetComp, ast.DictComp, ast.GeneratorExp))]
             for lp in loops:
                 if id(lp) in seen_loops:
                     continue  # nested guard regions: the same loop once
                 seen_loops.add(id(lp))
+                if isinstance(lp, ast.For) and isinstance(lp.body[-1], (ast.Return, ast.Raise, ast.Break)):
+                    continue  # the body always leaves at its first item: no later item can be dropped
                 if isinstance(lp, ast.For):
                     body_nodes = [x for s in lp.body for x in ast.walk(s)]
                     iters = [(lp.target, lp.iter)]
